@@ -122,7 +122,7 @@ def factory_discipline_history(ctx):
 
     t = ctx.tape
     cat = [c for c in factory_catalogue() if c[0] != "DensityFilter"]  # (its 10^4 x 10^4 Jacobian: see the large-sparse family)
-    name, lin_ok = cat[t.choice(len(cat), "factory_index")]
+    name, lin_ok, _ = cat[t.choice(len(cat), "factory_index")]
     policy = t.pick(["SimpleCache", "MemoryFullCache", "HDF5Cache"], "policy")
     SingleInstancePerFileAttribute.instances.clear()
     fac = DisciplineFactory()
